@@ -76,7 +76,9 @@ func (h LoggableHTTPHeader) MarshalLogObject(enc zapcore.ObjectEncoder) error {
 	}
 	for key, val := range h.Header {
 		if !h.ShouldLogCredentials {
-			switch strings.ToLower(key) {
+			// a trailer that was not announced is kept in the header map
+			// under its name prefixed with http.TrailerPrefix
+			switch strings.ToLower(strings.TrimPrefix(key, http.TrailerPrefix)) {
 			case "cookie", "set-cookie", "authorization", "proxy-authorization":
 				val = []string{"REDACTED"} // see #5669. I still think ▒▒▒▒ would be cool.
 			}
